@@ -267,8 +267,14 @@ def c01e(ctx):
     ctx.stats['functions'] |= sub.stats['functions']
     fn = ctx.fn('mapproxy/client/wms.py:WMSClient._query_req')
     want = {'.params.bbox': 'query.bbox', '.params.size': 'query.size', '.params.srs': 'query.srs.srs_code', '.params.format': 'format'}
-    got = {'.' + unparse(s.targets[0]).split('.', 1)[1]: unparse(s.value) for s in fn.walk() if isinstance(s, ast.Assign) and '.' in unparse(s.targets[0])}
-    ok = all(got.get(k) == v for k, v in want.items())
+    # attribute stores with the receiver in closed form (`params = req.params; params.bbox = ..` writes req.params.bbox)
+    got = {}
+    for s_ in fn.walk():
+        if isinstance(s_, ast.Assign) and len(s_.targets) == 1 and isinstance(s_.targets[0], ast.Attribute):
+            t = s_.targets[0]
+            recv = fn.canon.text(t.value, at=fn.cfg.node_for(s_))
+            got['.' + (recv + '.' + t.attr).split('.', 1)[1] if '.' in recv else '.' + t.attr] = fn.ctext(s_.value)
+    ok = all(got.get(k) == v for k, v in want.items()) or all(any(g.endswith(k) and got[g] == v for g in got) for k, v in want.items())
     ctx.check(ok, 'WMSClient._query_req:query-to-params', 'bbox, size, srs code and format of the query are what is written into the upstream request', fn,
               fail='the upstream request parameters are not the bbox/size/srs/format of the query: %s' % {k: got.get(k) for k in want})
 
